@@ -209,9 +209,12 @@ class HistInput(symval.Node):
         return [self.alphabet[pick(env[o], len(self.alphabet))] for o in self.ops]
 
 
+OPS_TINY = [(t, m, dj) for t in ("Outer", "Mixed") for m in ("to_dict", "to_fmt", "from_fmt") for dj in (0, 1)]
+
+
 def make_input_plan(T_, variant, k=2, small=False, **kw):
     ctx = symval.Ctx()
-    return ctx, HistInput(ctx, k, OPS_QUICK if small else OPS)
+    return ctx, HistInput(ctx, k, {True: OPS_QUICK, False: OPS, "tiny": OPS_TINY}[small])
 
 
 def setup(T_, NODE, CTX, variant, k=2, mode="lazy", fmt="orjson", small=False):
